@@ -150,6 +150,41 @@ def send (items : List (Item Handler)) (r : Req) : Nat → Nat → Result
         | .terminal => .terminal
         | .notFound => send items r fuel off'
 
+/-! ### the bus instrumented with its consultation log -/
+
+/-- `BasicRequestBus._send_inner` + `ChainingProvider._wrap_handler` as in `send`, returning in addition the
+    handlers invoked, in invocation order. -/
+def sendLog {H : Type} (act : H → Handler) (items : List (Item H)) (r : Req) : Nat → Nat → Result × List H
+  | 0, _ => (.notFound, [])
+  | fuel + 1, off =>
+    match route items r off with
+    | none => (.notFound, [])
+    | some (h, off') =>
+      match act h with
+      | .respond w => (.ok w, [h])
+      | .decline => ((sendLog act items r fuel off').1, h :: (sendLog act items r fuel off').2)
+      | .declineTerminal => (.terminal, [h])
+      | .chainFirst f =>
+        -- next = provide_from_next() = send_chaining(request, off')
+        match (sendLog act items r fuel off').1 with
+        | .ok w => (.ok (f :: w), h :: (sendLog act items r fuel off').2)
+        | .terminal => (.terminal, h :: (sendLog act items r fuel off').2)
+        | .notFound =>
+          -- the chaining handler itself raised CannotProvide: the bus continues after it (a second walk)
+          ((sendLog act items r fuel off').1,
+            h :: (sendLog act items r fuel off').2 ++ (sendLog act items r fuel off').2)
+      | .chainLast f =>
+        match (sendLog act items r fuel off').1 with
+        | .ok w => (.ok (w ++ [f]), h :: (sendLog act items r fuel off').2)
+        | .terminal => (.terminal, h :: (sendLog act items r fuel off').2)
+        | .notFound =>
+          ((sendLog act items r fuel off').1,
+            h :: (sendLog act items r fuel off').2 ++ (sendLog act items r fuel off').2)
+
+/-- the recipe with every handler labelled by its position -/
+def labelled (cs : List (Checker × Handler)) : List (Checker × (Handler × Nat)) :=
+  cs.zipIdx.map fun p => (p.1.1, (p.1.2, p.2))
+
 /-- Specification: the documented meaning, by recursion over the handlers
     that match, in recipe order. -/
 def specSend : List Handler → Result
@@ -165,6 +200,16 @@ def specSend : List Handler → Result
     match specSend rest with
     | .ok w => .ok (w ++ [f])
     | r => r
+
+/-- A retort placed in a recipe (`SearchingRetort.get_request_handlers`): one provider with an always-true
+    checker whose handler is `self._provide_from_recipe(request)` - it answers with whatever the retort's OWN
+    recipe produces for the request; a `CannotProvide` of the inner search leaves the handler as it is (the
+    outer bus continues on a non-terminal one, stops on a terminal one).  `inner` is the outcome of the inner
+    retort's own bus for the request at hand. -/
+def nestedHandler : Result → Handler
+  | .ok w => .respond w
+  | .notFound => .decline
+  | .terminal => .declineTerminal
 
 /-! ### Recipe assembly (`BaseRetort._calculate_derived`, `AdornedRetort.extend`) -/
 
